@@ -36,7 +36,7 @@ DIAG_T1 = {"$.cache_hits", "$.cache_misses", "$.cache_used", "$.max_delta", "$.t
 DIAG_T2 = {"$.cache_hits", "$.cache_misses", "$.cache_used", "$.t2.cache_evictions", "$.t2.cache_bytes"}
 
 
-def gen_scenario(rng):
+def gen_scenario(rng, cp=None):
     from vlib.world import gen_world
     from vlib.cfggen import gen_cfg, gen_turns
 
@@ -118,16 +118,25 @@ def gen_scenario(rng):
         cfg["t1"]["cache"] = {"enabled": True, "ttl_s": rng.choice([0, 0, 300])}
         cfg["t2"]["cache"] = {"enabled": True, "ttl_s": rng.choice([0, 0, 300])}
         cfg["t4"]["cache"] = {"enabled": True, "namespaces": ["t2:semantic"], "ttl_sec": rng.choice([0, 600])}
-    if rng.random() < 0.1:
+    if cp is not None or rng.random() < 0.15:
         # cache-pressure class: a T1 result cache of 16 entries, eight different questions over two or three graphs (more keys
         # than entries), each asked twice - which entries survive decides the hit counters of the second round
         world = gen_world(rng, ngraphs=(2, 3), neps=(0, 6))
         labs = sorted({n[1] for g in world["graphs"].values() for n in g["nodes"] if n[1]}) or ["hello"]
         qs = []
-        for j in range(8):
+        for j in range(12):
             qs.append(" ".join(rng.sample(labs, min(len(labs), 1 + j % 3))) + f" q{j}")
-        turns = [{"agent": "A", "text": q, "turn": i + 1, "now_ms": 1_700_000_000_000 + 1000 * i} for i, q in enumerate(qs + qs)]
-        cfg["t1"]["cache"] = {"enabled": True, "max_entries": 16, "ttl_s": 0}
+        order = qs + qs
+        cap_ = 16
+        if (cp == "tiny") or (cp is None and rng.random() < 0.5):
+            # ... or a tiny cache and a revisiting pattern in which least-recently-USED and first-inserted differ
+            world = gen_world(rng, ngraphs=(1, 1), neps=(0, 6))
+            labs = sorted({n[1] for g in world["graphs"].values() for n in g["nodes"] if n[1]}) or ["hello"]
+            qs = [" ".join(rng.sample(labs, min(len(labs), 1 + j % 2))) + f" q{j}" for j in range(4)]
+            order = [qs[j] for j in (0, 1, 0, 2, 1, 0, 3, 0, 2, 1)]
+            cap_ = 2
+        turns = [{"agent": "A", "text": q, "turn": i + 1, "now_ms": 1_700_000_000_000 + 1000 * i} for i, q in enumerate(order)]
+        cfg["t1"]["cache"] = {"enabled": True, "max_entries": cap_, "ttl_s": 0}
         cfg["t4"]["enabled"] = False  # the graphs stay as they are: their cache entries stay valid
         boot = False
     # some scenarios boot from an (empty) snapshot directory: the first turn runs the real boot loader
@@ -255,9 +264,10 @@ def _chunk(args):
     bootstrap.init()
     rng = random.Random(f"C01/{seed}/{i}")
     sess = Session.worker(PID, tier, seed)
-    for _ in range(n):
+    forced = {0: "wide", 1: "tiny"}.get(i)  # both flavours of the cache-pressure class are in every run
+    for j_ in range(n):
         try:
-            check_scenario(gen_scenario(rng), sess, rng, tier)
+            check_scenario(gen_scenario(rng, cp=(forced if j_ == 0 else None)), sess, rng, tier)
         except Exception as ex:
             import traceback
             sess.inconclusive_because(f"harness error {type(ex).__name__}: {ex} @ {traceback.format_exc()[-500:]}")
